@@ -279,7 +279,7 @@ func kindCut(c *Check, k string) func(b *ssa.BasicBlock, i int) bool {
 
 func ruleR11b(c *Check) {
 	c.Rule("R11b", "the workspace-escape check (isWithinWorkspace) is reached for outputs of every kind whose handler uses the identifier as a filesystem path (computed from the handlers: file, dir)", 2)
-	within := anchor(c, "R11b", "analysis", "", "isWithinWorkspace")
+	within := withinWorkspaceFunc(c, "R11b")
 	if within == nil {
 		return
 	}
